@@ -2403,6 +2403,54 @@ func c03r9(c *Ctx, r *Report) {
 	r.floor("early exits on a bonus test", n, 1)
 }
 
+// c19r13: which byte separates path components is the platform's business (os.IsPathSeparator,
+// os.PathSeparator). On Unix a backslash is an ordinary file-name character, so the walker's path handling
+// must not treat the constant '\\' as a separator (D60: trimPath stripped a leading `.\` on every platform; the
+// entry `.\file` was listed as `file`, the hidden directory `.\bs` was walked as `bs/`).
+func c19r13(c *Ctx, r *Report) {
+	l := c.L
+	r.rule("C19-R13", "D (separators are classified by the os package)", "P1",
+		"in trimPath and in Reader.readFiles with its callbacks, no byte of a path is compared with the constant backslash",
+		"on Unix, entries whose names contain a backslash are listed under names that do not exist, and the hidden / skip tests run on the mangled name")
+	var fns []*ssa.Function
+	for _, name := range []string{"trimPath", "(*Reader).readFiles"} {
+		if f := l.Fn("fzf", name); f != nil {
+			fns = append(fns, withClosures(f)...)
+		}
+	}
+	if len(fns) < 2 {
+		r.unest("anchors", token.NoPos, nil, "anchors trimPath / Reader.readFiles", "cannot resolve")
+		return
+	}
+	n := 0
+	for _, fn := range fns {
+		k := 0
+		eachInstr(fn, func(in ssa.Instruction) {
+			b, ok := in.(*ssa.BinOp)
+			if !ok || (b.Op != token.EQL && b.Op != token.NEQ) {
+				return
+			}
+			for _, pr := range [][2]ssa.Value{{b.X, b.Y}, {b.Y, b.X}} {
+				kk, isK := constIntVal(pr[1])
+				if !isK {
+					continue
+				}
+				bt, ok := pr[0].Type().Underlying().(*types.Basic)
+				if !ok || (bt.Kind() != types.Uint8 && bt.Kind() != types.Int32) {
+					continue
+				}
+				n++
+				if kk == '\\' {
+					k++
+					r.bad(fmt.Sprintf("%s:comparison #%d of a path byte with a backslash", relName(fn), k), b.Pos(), fn, "separators are recognised by os.IsPathSeparator", "a byte of the path is compared with '\\\\' on every platform: on Unix that is an ordinary character of a file name")
+				}
+			}
+		})
+	}
+	r.ok("walker:no path byte is compared with a backslash", token.NoPos, nil, fmt.Sprintf("%d comparisons of path bytes with constants in %d functions, none with a backslash", n, len(fns)))
+	r.floor("comparisons of path bytes with constants in the walker", n, 1)
+}
+
 // round8 runs the round-8 rules of a property (own and shared) after the property's older rules.
 func round8(c *Ctx, r *Report, prop string) {
 	switch prop {
@@ -2458,6 +2506,7 @@ func round8(c *Ctx, r *Report, prop string) {
 		c18r12(c, r)
 	case "C19":
 		c19r12(c, r)
+		c19r13(c, r)
 	case "C20":
 		c20r15(c, r)
 	case "C13":
